@@ -1009,7 +1009,24 @@ fn deep_and_long(ctx: &mut GenCtx) {
     }
 }
 
+fn json_glue_cases(ctx: &mut GenCtx) {
+    // JsonLdQuadSource: n quads with the callback failing at each position (or never), and the one-shot error
+    for n in 0..6usize {
+        ctx.stats.bump("glue.json");
+        ctx.emit(&format!("glue j {} -", n));
+        for k in 0..n {
+            ctx.stats.bump("glue.json");
+            ctx.emit(&format!("glue j {} {}", n, k));
+        }
+    }
+    for sink in ["-", "0", "1"] {
+        ctx.stats.bump("glue.json");
+        ctx.emit(&format!("glue j 0! {}", sink));
+    }
+}
+
 fn glue_cases(ctx: &mut GenCtx) {
+    json_glue_cases(ctx);
     // every script of up to 3 steps over items in {0,1,2} x {ok, parser error}, every callback failure position
     let opts = ["0", "1", "2", "0!", "1!", "2!"];
     let mut scripts: Vec<String> = vec!["_".into()];
